@@ -76,7 +76,9 @@ CHECKS = {
              "every normal-form block diagram from its token stream). Every text the real learner emits for the "
              "C01 inputs, plus definitions with several start events and loops ending in forks, must parse, and the "
              "event names of the parsed diagram must be exactly the input's event types with no placeholder "
-             "(|||START|||, |||END|||, DUMMY_BREAK, LOOP_n). The writer is not modelled; C05_full is a stated Prop.",
+             "(|||START|||, |||END|||, DUMMY_BREAK, LOOP_n). The writer is not modelled in Lean, but it is run on its own: "
+             "write_puml_string on PUML graphs built from the block structures of the generated definitions must print "
+             "texts from which the Lean parser recovers those block structures; C05_full is a stated Prop.",
         ref="DESIGN.md §5 C05",
         note="Trusted: the Lean parser as the definition of the dialect (written from OPERATOR_NODE_PUML_MAP and the "
              "corpus), Lean kernel for its theorems. Recorded findings: KF-B, KF-C, one corpus file.",
